@@ -6,7 +6,7 @@ A scenario is a plain JSON value (so that a replay file does not depend on gener
   prices : {key: [floats]}               (already on the grid)
   assets : [asset spec]                  spec = {type, name, nodes, args, base?, inner?}
 Special encodings inside args: {"$dt": iso} datetime, {"$arr": [...]} numpy array,
-{"$date": iso} datetime.date, {"$idx": [iso...]} pandas DatetimeIndex.
+{"$date": iso} datetime.date, {"$idx": [iso...]} pandas DatetimeIndex, {"$darr": [iso...], "res": "D"|"s"|"us"|"ns"} numpy date array.
 """
 import datetime as dt
 import copy
@@ -28,6 +28,8 @@ def dec(v):
             return np.asarray(v['$arr'], dtype=float)
         if '$idx' in v:
             return pd.DatetimeIndex([pd.Timestamp(x) for x in v['$idx']])
+        if '$darr' in v:
+            return np.asarray([np.datetime64(pd.Timestamp(x), v.get('res', 'ns')) for x in v['$darr']])
         return {k: dec(x) for k, x in v.items()}
     if isinstance(v, list):
         return [dec(x) for x in v]
